@@ -425,6 +425,8 @@ def py_live_checks(inst, dump):
     invoked at, every time index of it is an allowed slot now + k*d, and the constant of every capacity row is the worker's
     TRUE total of that resource name minus what the running tasks hold."""
     now, d = inst["now"], inst["disc"]
+    if dump.get("unknown_rows"):
+        return "the live model has rows that the formulation as modelled does not have: %s" % dump["unknown_rows"][:4]
     if inst.get("impl_now", now) != now:
         return "schedule() was invoked at %d but built its model from time %d" % (now, inst["impl_now"])
     times = set()
@@ -546,9 +548,13 @@ def live_checks(ctx, worlds, results):
     """py_live_checks on every captured model (always, whatever the state of the Coq side)."""
     n = 0
     for i, (w, r) in enumerate(zip(worlds, results)):
-        if "inst" not in r or "dump" not in r:
+        if "inst" not in r:
             continue
-        msg = py_live_checks(r["inst"], r["dump"])
+        err = r.get("dump_error") or r.get("values_error") or r.get("probe_error")
+        if "dump" not in r and not err:
+            continue
+        msg = ("the live model / solver values / probes could not be captured: %s" % err) if err else \
+            py_live_checks(r["inst"], r["dump"])
         if msg:
             n += 1
             if n <= 3:
@@ -592,11 +598,14 @@ def py_monitor_fallback(ctx, worlds, results, maximal=False):
                 ctx.violation("py%d" % i, {"stream": "python-fallback", "world": worlds[i], "instance": r["inst"],
                                            "placements": r["placements"], "what": err})
                 return True
+    st = ctx.cov["streams"].setdefault("python-fallback", {"cases": 0, "failing": 0})
     for i, inst, exp, origin in all_plans_of(results, probe_kinds=(["c14"] if maximal else None)):
+        st["cases"] += 1
         msg = py_check_exp(inst, exp)
         if not msg and maximal:
             msg = py_maximal(inst, exp)
         if msg:
+            st["failing"] += 1
             ctx.violation("py%d" % i, {"stream": "python-fallback", "world": worlds[i], "instance": inst, "origin": origin,
                                        "plan [task, [worker, strategy, start]]": exp,
                                        "placements_returned_by_schedule": results[i]["placements"], "what": msg})
@@ -691,6 +700,9 @@ def coverage(ctx, worlds, results, nontrivial):
                 nt += 1
     ctx.cov["distinct_nontrivial"] += nt
     ctx.cov.setdefault("input_distribution", {}).update(dist)
+    if dist["unsupported"]:     # generated worlds are inside the modelled subset: a world that cannot be captured is never skipped silently
+        ctx.broken.append({"kind": "machinery", "name": "tetri adapter: %d generated worlds could not be captured" % dist["unsupported"],
+                           "detail": "; ".join(sorted({r["unsupported"] for r in results if "unsupported" in r}))[:600]})
     return nt
 
 
